@@ -1,0 +1,26 @@
+//go:build verif
+
+package tsdb
+
+import (
+	"context"
+
+	"github.com/lindb/lindb/models"
+)
+
+// Verification export for property C07 (node crash recovery): runs the flush checker's own
+// doFlush (FlushMeta -> WaitFlushMetaCompleted -> per shard: FlushIndex -> WaitFlushIndexCompleted
+// -> family.Flush) synchronously for one shard's families, exactly as a flush worker does after
+// taking a request from the channel. No behaviour is added.
+func VerifDoFlush(db Database, shard Shard, families []DataFamily) {
+	ctx, cancel := context.WithCancel(context.Background())
+	defer cancel()
+	fc := newDataFlushChecker(ctx).(*dataFlushChecker)
+	fc.flushInFlight.Inc() // requestFlushJob's bookkeeping for the request that doFlush completes
+	fc.doFlush(&flushRequest{
+		db: db,
+		shards: map[models.ShardID]*flushShard{
+			shard.ShardID(): {shard: shard, families: families},
+		},
+	})
+}
